@@ -293,6 +293,40 @@ class Resolver(object):
     def expand(self, node):
         return norm(self.expand_node(node))
 
+    def element_def(self, name):
+        """If `name` is bound only as the (single Name) target of one for statement / comprehension generator whose iterable expands
+        to a list / tuple display with one distinct element expression or to a comprehension with one generator, the expression of an
+        element (for a comprehension: its `elt`, which mentions the comprehension's own variables); else None."""
+        d = self.defs.get(name)
+        if not d or len(d) != 1 or d[0] is not None or name in self.params:
+            return None
+        srcs = []
+        for n in ast.walk(self.fn):
+            if isinstance(n, (ast.For, ast.comprehension)) and isinstance(n.target, ast.Name) and n.target.id == name:
+                srcs.append(n.iter)
+        if len(srcs) != 1:
+            return None
+        it = self.expand_node(srcs[0])
+        if isinstance(it, (ast.ListComp, ast.GeneratorExp, ast.SetComp)) and len(it.generators) == 1:
+            return it.elt
+        if isinstance(it, (ast.List, ast.Tuple)) and it.elts and len(set(norm(e) for e in it.elts)) == 1:
+            return it.elts[0]
+        return None
+
+    def expand_with_elements(self, node, depth=4):
+        """expand_node, and names that stand for an element of a locally built sequence become that element's expression"""
+        res = self
+        out = self.expand_node(node)
+
+        class T(ast.NodeTransformer):
+            def visit_Name(self, n):
+                if isinstance(n.ctx, ast.Load) and depth > 0:
+                    e = res.element_def(n.id)
+                    if e is not None:
+                        return res.expand_with_elements(e, depth - 1)
+                return n
+        return T().visit(out)
+
     def all_defs(self, name):
         return [d for d in self.defs.get(name, []) if d is not None]
 
